@@ -2,7 +2,7 @@
 From Coq Require Import NArith Arith Bool List Lia.
 From RS.Gen Require Import Prelude GenConsts.
 From RS.Model Require Import Field Sched Codec Layout.
-From RS.Proofs Require Import Param Linear LayoutFacts.
+From RS.Proofs Require Import Param Linear LayoutFacts BlockFacts.
 Import ListNotations.
 Local Open Scope N_scope.
 
@@ -32,6 +32,23 @@ Theorem C04_packed_is_blocks :
                          (syms_of_bytes (bytes_n sb 5))) evens = true.
 Proof. vm_compute. reflexivity. Qed.
 Print Assumptions C04_packed_is_blocks.
+
+(* ... and for EVERY even size, any stale blocks: what the Rust does on 64-byte blocks returns
+   the inserted shard, and the lanes of the blocks restricted to the shard's slots are the packed
+   symbols of the model *)
+Theorem C04_block_roundtrip_all : forall (old : list block) (shard : list N) q, length shard = (q + q)%nat ->
+  Forall (fun b => length b = 64%nat) old -> (blocks_needed (length shard) <= length old)%nat ->
+  read_shard (length shard) (insert_blocks old shard) = shard.
+Proof. exact block_roundtrip. Qed.
+Print Assumptions C04_block_roundtrip_all.
+Theorem C04_packed_is_blocks_all : forall (old : list block) (shard : list N) q, length shard = (q + q)%nat ->
+  Forall (fun b => length b = 64%nat) old -> (blocks_needed (length shard) <= length old)%nat ->
+  BlockFacts.slot_lanes (length shard) (insert_blocks old shard) = syms_of_bytes shard.
+Proof.
+  intros old shard q Lq Fo Hn. unfold syms_of_bytes. apply (packed_is_blocks old shard q _ Lq Fo Hn).
+  pose proof (Nat.div_mod (length shard) 64 ltac:(lia)). pose proof (Nat.mod_upper_bound (length shard) 64 ltac:(lia)). lia.
+Qed.
+Print Assumptions C04_packed_is_blocks_all.
 
 (* bytes <-> symbols are mutually inverse and length preserving for every even size up to 320 *)
 Theorem C04_pack_unpack :
